@@ -80,9 +80,13 @@ func genMix(p *Plan, r *RNG, bias string) {
 			ip = mustUDPAddr(p.Clients[0].Addr).IP.String()
 		}
 		u := p.Cfg.Users[r.Intn(len(p.Cfg.Users))]
-		addr := fmt.Sprintf("%s:%d", ip, 4000+i*13)
+		port := 4000 + i*13
+		if i > 0 && ip != mustUDPAddr(p.Clients[0].Addr).IP.String() && r.Chance(1, 3) {
+			port = 4000 // another host using the same source port as the first client
+		}
+		addr := fmt.Sprintf("%s:%d", ip, port)
 		if v6 {
-			addr = fmt.Sprintf("[%s]:%d", ip, 4000+i*13)
+			addr = fmt.Sprintf("[%s]:%d", ip, port)
 		}
 		p.Clients = append(p.Clients, ClientSpec{ID: fmt.Sprintf("c%d", i+1), Addr: addr, User: u.Name, Pass: u.Pass, Phase: int64(1000 + i*101)})
 	}
